@@ -558,7 +558,19 @@ class _Eval:
         return ("starred", self.expr(e.value))
 
     def e_Dict(self, e):
-        return ("dict", tuple((self.expr(k) if k is not None else None, self.expr(v)) for k, v in zip(e.keys, e.values)))
+        items = []
+        for k, v in zip(e.keys, e.values):
+            vt = self.expr(v)
+            if k is None and vt[0] == "dict" and all(k_ is not None for k_, _ in vt[1]):
+                # {**d, ..} with d a display the def-use engine sees: the merged display (later keys win)
+                for k_, v_ in vt[1]:
+                    items = [(a_, b_) for a_, b_ in items if a_ != k_] + [(k_, v_)]
+            elif k is None:
+                items.append((None, vt))
+            else:
+                kt = self.expr(k)
+                items = [(a_, b_) for a_, b_ in items if a_ != kt or a_ is None] + [(kt, vt)]
+        return ("dict", tuple(items))
 
     def e_BinOp(self, e):
         l, r = self.expr(e.left), self.expr(e.right)
@@ -725,6 +737,15 @@ class _Eval:
         f = e.func
         args = tuple(self.expr(a) for a in e.args)
         kws = tuple((k.arg, self.expr(k.value)) for k in e.keywords)
+        # f(**d) with d a display of string keys the def-use engine sees is the call with those keywords
+        if any(k_ is None for k_, _ in kws):
+            new = []
+            for k_, v_ in kws:
+                if k_ is None and v_[0] == "dict" and v_[1] and all(a_ is not None and a_[0] == "const" and isinstance(a_[1], str) for a_, _ in v_[1]):
+                    new += [(a_[1], b_) for a_, b_ in v_[1]]
+                else:
+                    new.append((k_, v_))
+            kws = tuple(new)
         # canonical order of named keywords (their order in the source does not matter to the callee); **mappings stay last
         kws = tuple(sorted((kv for kv in kws if kv[0] is not None), key=lambda kv: kv[0])) + tuple(kv for kv in kws if kv[0] is None)
         if (isinstance(f, ast.Attribute) and isinstance(f.value, ast.Call) and isinstance(f.value.func, ast.Name)
